@@ -42,12 +42,16 @@ SPECIAL_TREES = [
     [None, 0, 0, 0],                 # star
     [None, 0, 0, 1, 2],              # chain rooted in the middle
     [None, 0, 0, 0, 0],              # star
+    [None, 0, 1, 1, 1],              # a node with a parent and three leaf children
     [None, 0, 1, 2, 3],              # chain
     [None, 0, 1, 1, 3, 3],           # single-child root, nested branching
     [None, 0, 0, 1, 1, 2, 2],        # binary
     [None, 0, 0, 0, 0, 0, 0],        # star with 7 nodes
     [None, 0, 1, 2, 3, 4, 5],        # chain with 7 nodes
     [None, 0, 1, 2, 0, 4, 5],        # ties in depth
+    [None, 0, 1, 2, 1, 4],           # chain with a side branch of length two (consecutive sweep sites 3 edges apart)
+    [None, 0, 1, 0, 3, 0, 5],        # three arms of length two, rooted at the centre
+    [None, 0, 1, 2, 3, 2, 5],        # three arms of length two, rooted at the end of an arm
 ]
 
 
@@ -224,7 +228,10 @@ class Recorder:
     and the contraction that absorbs it.  Optionally evaluates the E^dagger H E oracle at every
     time_evolve call."""
 
-    def __init__(self, order=None, H=None, check_heff=False):
+    def __init__(self, order=None, H=None, check_heff=False, capture_w=0, wseed=0):
+        self.capture_w = capture_w      # C05W: number of site calls to snapshot for the diagram-level tie (c05w.py)
+        self.wseed = wseed
+        self.wrecs = []
         self.log = []
         self.algo = None
         self.order = order
@@ -267,6 +274,11 @@ class Recorder:
             self.log.append(("two", nid(a), nid(b), f))
         else:
             self.log.append(("site", nid(x), f))
+        # ---- C05W hook: sampled snapshots of (state, TTNO, H_eff) for the diagram-level tie of Contr/Heff.v ----
+        if self.capture_w:
+            from props import c05w
+            c05w.capture(self, algo, cp, x, heff)
+        # ---- end of C05W hook ----
         if self.check_heff:
             try:
                 E = embedding(cp, x, self.order)
@@ -366,11 +378,11 @@ def make_algo(kind, sysd, mode=None, svd=None, dt=None, nsteps=1):
     return util.make_evolution(kind, sysd["ttns"], sysd["ham"], sysd["ttno"], dt, dt * nsteps, [], mode=mode, svd=svd)
 
 
-def record_run(kind, sysd, nsteps, check_heff=False, mode=None, svd=None, after_step=None):
+def record_run(kind, sysd, nsteps, check_heff=False, mode=None, svd=None, after_step=None, capture_w=0, wseed=0):
     """Construct the class, run `nsteps` steps; returns the observation dict (JSON-able).
     after_step(algo, k) may add per-step measurements (returned under 'measure')."""
     ob = {"kind": kind}
-    rec = Recorder(order=sysd["ids"], H=sysd["H"], check_heff=check_heff)
+    rec = Recorder(order=sysd["ids"], H=sysd["H"], check_heff=check_heff, capture_w=capture_w, wseed=wseed)
     with rec:
         t0 = rtree_json(sysd["ttns"])
         ob["t0"] = t0
@@ -405,6 +417,8 @@ def record_run(kind, sysd, nsteps, check_heff=False, mode=None, svd=None, after_
     ob["max_err"] = rec.max_err
     ob["worst"] = rec.worst
     ob["problems"] = rec.problems[:5]
+    if capture_w:
+        ob["wrecs"] = rec.wrecs          # C05W snapshots (numpy arrays; consumed and dropped by c05w.run in C05.model)
     return ob, algo
 
 
@@ -588,7 +602,8 @@ def gen_tree_cases(rng, count, kinds, thorough, extra=None):
 def _run_case(case):
     try:
         sysd = build_system(case)
-        ob, _ = record_run(case["kind"], sysd, case.get("nsteps", 1), check_heff=True)
+        ob, _ = record_run(case["kind"], sysd, case.get("nsteps", 1), check_heff=True,
+                           capture_w=case.get("wcap", 3), wseed=case["seed"])
         ob["dims"] = [sysd["dims"][i] for i in sysd["ids"]]
         ob["ttno_children_differ"] = any(list(sysd["ttno"].nodes[i].children) != list(sysd["ttns"].nodes[i].children)
                                          for i in sysd["ids"])
@@ -620,10 +635,27 @@ class C05(Prop):
               "is on the updated object; all assertions of the classes hold; each step ends with the centre on update_path[0] (C05_cache_fresh_bounded_9)"),
         ("I", "per explored instance: the schedule checker and the duration checker are evaluated by vm_compute on the model trace that is "
               "compared exactly with the implementation (incl. the tree with the children order the state had at cache re-initialisation)"),
+        ("F", "SITE updates, diagram level (Contr/Heff.v, C05_heff_site_diagram / C05_heff_site_checked / C05_env_block_closed): for every tree, every "
+              "updated node and independent neighbour orders of state and TTNO (wf_heff), the sandwich-cache recursion over the tree re-rooted at the "
+              "target (children AND parent directions, leaf / subtree branches of contract_any) followed by contract_all_except_node + "
+              "find_tensor_leg_permutation succeeds and yields exactly the <psi|H|psi> network with the target's ket tensor and its conjugate twin "
+              "removed: atoms = all operator atoms + all other ket atoms and conjugate copies; every edge wire not incident to the target bound; at the "
+              "target the operator's wires bound, the ket's and the conjugate copy's open; glued pairs (ket open, operator input) / (operator output, "
+              "conjugate open) at every other node; rows = conjugate-side legs, columns = ket-side legs, both in the leg order of the updated tensor "
+              "= E^dagger H E as a diagram.  The blocks of the model are the FRESH ones (freshness of the real cache: clause cache_fresh above + value tie)"),
+        ("I", "per sampled SITE call (about 3 per case): the state and the TTNO are rebuilt as store programmes from their current structure; all build "
+              "operations accepted; wf_heffb (hypothesis of C05_heff_site_checked) and heff_ok (C05_heff_ok_sound) by vm_compute.  Per sampled LINK "
+              "call: link_ok (C05_link_ok_sound: both sides of the edge complete, operator wire of the edge bound, axes = conjugate copies of the "
+              "link tensor's legs then the link tensor's legs) by vm_compute — no universal theorem for the link Hamiltonian"),
+        ("V", "value tie of the diagram level: einsum of the model diagram (fresh blocks) on the captured tensors equals the matrix handed to "
+              "time_evolve, 1e-9 relative, for the sampled site and link calls (detects stale cache blocks, wrong leg permutations, swapped sides)"),
         ("V", "H_eff handed to time_evolve equals E^dagger H E (dense operator, embedding by differentiating the current dense state): "
-              "numerical oracle, relative tolerance 1e-9, at every call of every step"),
+              "numerical oracle, relative tolerance 1e-9, at every call of every step (site, link and two-site; the two-site effective Hamiltonian "
+              "is not modelled at the diagram level)"),
     ]
     trusted_base = ["NumPy einsum/kron for the dense reference E^dagger H E (independent of the library's contraction code)",
+                    "diagram level: NumPy tensordot/transpose implement g_tensordot/g_transpose of Contr/Heff.v (validated by the value tie); "
+                    "equal diagrams denote equal tensors (Wire/Sem*.v, C02)",
                     "the verification hook at the top of time_evolve reports (psi, H_eff, duration, direction) faithfully",
                     "monkey-patched wrappers (move to neighbour, cache add_entry, cache re-initialisation, link split/absorb) only log"]
     assumptions = ["trees with at least two nodes (second-order classes raise IndexError on a single node, as the model says)",
@@ -657,17 +689,25 @@ class C05(Prop):
         return [SkipCase(o["skip"]) if "skip" in o else o for o in obs]
 
     def model(self, ctx, cases, obs):
+        # ---- C05W hook: diagram-level obligations and value tie on the sampled site / link calls ----
+        from props import c05w
+        try:
+            self._w = c05w.run(ctx, cases, obs)
+        except Exception as e:  # noqa
+            self._w = (1, 0, [f"C05W evaluation failed: {type(e).__name__}: {e}"])
+        # ---- end of C05W hook ----
         return eval_models(ctx, cases, obs)
 
     def compare(self, case, ob, mo):
         tally_instance(self, mo)
         if ob.get("construct"):
             return f"implementation raised in the constructor: {ob['exception']}"
-        return compare_traces(case, ob, mo)
+        return compare_traces(case, ob, mo) or ob.get("w_tie")      # w_tie: set by c05w.run
 
     def extra_obligations(self, ctx):
         n, ok, fails = self.__dict__.get("_inst", [0, 0, []])
-        return n, ok, fails
+        wn, wok, wfails = self.__dict__.get("_w", (0, 0, []))
+        return n + wn, ok + wok, list(fails) + list(wfails)
 
     def oracle(self, case, ob):
         if "exception" in ob:
